@@ -286,7 +286,14 @@ func (p *parser) resolveModuleImport(importStmt *ast.ImportStmt) {
 	if !importStmt.IsDirectoryImport {
 		resolveSingleModule(inclPath)
 	} else {
+		foundModule := false
 		filepath.WalkDir(inclPath, func(path string, d fs.DirEntry, err error) error {
+			if err != nil {
+				foundModule = true // do not report the same import twice
+				p.err(ddperror.MISC_INCLUDE_ERROR, importStmt.Range, fmt.Sprintf("Fehler beim einbinden von '%s': %s", path, err.Error()))
+				return nil
+			}
+
 			if path == inclPath {
 				return nil
 			}
@@ -296,11 +303,16 @@ func (p *parser) resolveModuleImport(importStmt *ast.ImportStmt) {
 			}
 
 			if !d.IsDir() && filepath.Ext(path) == ".ddp" {
+				foundModule = true
 				resolveSingleModule(path)
 			}
 
 			return nil
 		})
+
+		if !foundModule {
+			p.err(ddperror.MISC_INCLUDE_ERROR, importStmt.Range, fmt.Sprintf("Das Verzeichnis '%s' enthält keine Module", inclPath))
+		}
 	}
 
 	ast.IterateImportedDecls(importStmt, func(_ string, decl ast.Declaration, tok token.Token) bool {
